@@ -298,6 +298,33 @@ def after_operations(ctx, k):
     ctx.nontrivial(type(mesh).__name__, "after-operations", tuple(ops[:3]))
 
 
+def periodic_mesh(rng, kind):
+    """Discontinuous/periodic topologies (Mesh*DG.init_tensor(periodic=...)): the cell list identifies opposite
+    boundary vertices; the geometry lives in the DG geometry element and is not used by the index oracles."""
+    import skfem
+    ax = lambda n: np.unique(np.concatenate([[0.0, 1.0], G.dyadic(rng, n, bits=5)]))
+    if kind == "line":
+        return skfem.MeshLine1DG.init_tensor(ax(int(rng.integers(2, 6))), periodic=[0])
+    if kind == "tri":
+        per = [[0], [1], [0, 1]][int(rng.integers(3))]
+        return skfem.MeshTri1DG.init_tensor(ax(int(rng.integers(2, 5))), ax(int(rng.integers(2, 5))), periodic=per)
+    if kind == "quad":
+        per = [[0], [1], [0, 1]][int(rng.integers(3))]
+        return skfem.MeshQuad1DG.init_tensor(ax(int(rng.integers(2, 5))), ax(int(rng.integers(2, 5))), periodic=per)
+    per = [[0], [2], [0, 1], [0, 1, 2]][int(rng.integers(4))]
+    return skfem.MeshHex1DG.init_tensor(ax(2), ax(2), ax(int(rng.integers(2, 4))), periodic=per)
+
+
+def periodic_case(ctx, k):
+    rng = ctx.rng()
+    kind = ("line", "tri", "quad", "hex")[k % 4]
+    mesh = periodic_mesh(rng, kind)
+    topo, fkeys = check_mesh(ctx, mesh, kind, {"gen": "periodic", "class": type(mesh).__name__})
+    ctx.reached("periodic-topology")
+    if topo is not None and topo.interior_facet_keys():
+        ctx.nontrivial(type(mesh).__name__, "periodic", len(topo.boundary_facet_keys()) == 0)
+
+
 def docs_meshes(ctx, k):
     import glob
     import os
@@ -337,5 +364,6 @@ FAMILIES = [Family("gen-" + kd, gen_case(kd), quick=q, thorough=th)
             for kd, q, th in (("line", 20, 400), ("tri", 40, 1600), ("quad", 30, 1200), ("tet", 24, 800),
                               ("hex", 20, 640), ("wedge", 14, 480))]
 FAMILIES.append(Family("after-operations", after_operations, 30, 900))
+FAMILIES.append(Family("periodic", periodic_case, 16, 320))
 FAMILIES.append(Family("docs-meshes", docs_meshes, 1, 1, budget={"quick": 60, "thorough": 120}))
-REQUIRED_REACH = ["several-components", "f2e-checked", "docs-meshes-loaded", "rechecked-after-operations"]
+REQUIRED_REACH = ["several-components", "f2e-checked", "docs-meshes-loaded", "rechecked-after-operations", "periodic-topology"]
